@@ -136,7 +136,7 @@ def out_of_date(spec, times, fresh=None):
 
 def count_gathers(a):
     """Number of implicit gather calls uberjob creates for an ARG."""
-    if "c" in a or "n" in a or "u" in a or "O" in a:
+    if "c" in a or "n" in a or "u" in a or "O" in a or "st" in a:
         return 0
     if not specs.has_ref(a):
         return 0
